@@ -12,3 +12,10 @@
 ; Uninterpreted; its defining equations are the axioms prod_base / prod_step in lemmas.smt2, which
 ; are instantiated at the ground prod-terms of each query (controlled unfolding).
 (declare-fun prod ((Array Int Int) Int Int) Int)
+; abstract content of an elementwise binary kernel: k_bin(kind, a, b); binkind recovers the kind
+; (1 add, 2 sub, 3 mul, 4 div, 5 gt, 6 gte, 7 lt, 8 lte, 9 eq), binlhs / binrhs the operands
+(declare-fun k_bin (Int Int Int) Int)
+(declare-fun binkind (Int) Int)
+(declare-fun binlhs (Int) Int)
+(declare-fun binrhs (Int) Int)
+(assert (forall ((c Int) (a Int) (b Int)) (! (and (= (binkind (k_bin c a b)) c) (= (binlhs (k_bin c a b)) a) (= (binrhs (k_bin c a b)) b)) :pattern ((k_bin c a b)))))
